@@ -29,13 +29,14 @@ import (
 	"github.com/AdguardTeam/AdGuardHome/verifsim/dnsnode"
 	"github.com/AdguardTeam/AdGuardHome/verifsim/env"
 	"github.com/AdguardTeam/AdGuardHome/verifsim/kernel"
+	"github.com/AdguardTeam/AdGuardHome/verifsim/sched"
 	"github.com/miekg/dns"
 	"pgregory.net/rapid"
 )
 
 // Op is one generated operation.
 type Op struct {
-	K string `json:"k"` // query add delete update list
+	K string `json:"k"` // query add delete update list par
 	// query
 	Name  string `json:"name,omitempty"`
 	Qt    uint16 `json:"qt,omitempty"`
@@ -47,6 +48,20 @@ type Op struct {
 	Missing bool   `json:"missing,omitempty"`
 	E       *Entry `json:"e,omitempty"` // add: the entry; delete/update with Missing: the target
 	N       *Entry `json:"n,omitempty"` // update: the replacement
+	// par: admin operations (add / delete / update), queries and, with Lst, a
+	// listing run as concurrent tasks under the seeded cooperative scheduler;
+	// Seed and Pct (preemption probability) determine the interleaving; with
+	// LogY the process log is verbose and every line a task writes to it is a
+	// scheduling point.
+	Seed uint64 `json:"seed,omitempty"`
+	Pct  int    `json:"pct,omitempty"`
+	LogY bool   `json:"logy,omitempty"`
+	Lst  bool   `json:"lst,omitempty"`
+	// Dly (sub-operation of par): the task arrives late, after this many
+	// scheduling points of its own.
+	Dly int `json:"dly,omitempty"`
+	Adm  []Op   `json:"adm,omitempty"`
+	Qs   []Op   `json:"qs,omitempty"`
 }
 
 // Scenario is one case.
@@ -213,7 +228,7 @@ func Gen(t *rapid.T, tier string) any {
 	for i, n := 0, rapid.IntRange(1, maxOps).Draw(t, "n_ops"); i < n; i++ {
 		var op Op
 		switch k := rapid.IntRange(0, 99).Draw(t, "kind"); {
-		case k < 72:
+		case k < 67:
 			op = Op{K: "query",
 				Name:  flipCase(t, genQName(t, allNames)),
 				Qt:    rapid.SampledFrom(qtypes).Draw(t, "qtype"),
@@ -222,10 +237,10 @@ func Gen(t *rapid.T, tier string) any {
 			if rapid.IntRange(0, 6).Draw(t, "fault") == 0 {
 				op.Fault = rapid.SampledFrom(faultKinds).Draw(t, "fault_kind")
 			}
-		case k < 82:
+		case k < 76:
 			e := genEntry(t)
 			op = Op{K: "add", E: &e}
-		case k < 84:
+		case k < 78:
 			// Add a whole chain at once (three to six add calls).
 			ch := genChain(t)
 			for _, e := range ch[:len(ch)-1] {
@@ -234,19 +249,24 @@ func Gen(t *rapid.T, tier string) any {
 			}
 			e := ch[len(ch)-1]
 			op = Op{K: "add", E: &e}
-		case k < 90:
+		case k < 84:
 			op = Op{K: "delete", Idx: rapid.IntRange(0, 9).Draw(t, "del_idx")}
 			if rapid.IntRange(0, 7).Draw(t, "del_missing") == 0 {
 				e := genEntry(t)
 				op.Missing, op.E = true, &e
 			}
-		case k < 98:
+		case k < 91:
 			n := genEntry(t)
 			op = Op{K: "update", Idx: rapid.IntRange(0, 9).Draw(t, "upd_idx"), N: &n}
 			if rapid.IntRange(0, 7).Draw(t, "upd_missing") == 0 {
 				e := genEntry(t)
 				op.Missing, op.E = true, &e
 			}
+		case k < 98:
+			// (An aimed phase is preceded by the add calls of its chain.)
+			ps := genPar(t, allNames)
+			sc.Ops = append(sc.Ops, ps[:len(ps)-1]...)
+			op = ps[len(ps)-1]
 		default:
 			op = Op{K: "list"}
 		}
@@ -314,6 +334,9 @@ type runner struct {
 	wakeAt atomic.Int64
 	cached map[string]map[string]bool
 	cache  bool
+	// abandon: a concurrent phase ended in a deadlock; the parked tasks hold the
+	// node's locks for ever, so the node is not closed.
+	abandon bool
 }
 
 func (r *runner) api(method, path string, body any) (code int, resp []byte, err error) {
@@ -924,6 +947,8 @@ func (r *runner) apply(op Op) error {
 		}
 	case "list":
 		// Checked below.
+	case "par":
+		return r.par(op)
 	default:
 		return fmt.Errorf("harness: unknown op %q", op.K)
 	}
@@ -953,6 +978,8 @@ func hasDuplicates(t []Entry) bool {
 func Run(t *testing.T, scAny any, c *kernel.Ctx) error {
 	sc := scAny.(*Scenario)
 	dnsnode.InitProcess()
+	sched.Init()
+	startWatcher()
 	dir, err := kernel.TempDir("c06")
 	if err != nil {
 		return err
@@ -988,7 +1015,11 @@ func Run(t *testing.T, scAny any, c *kernel.Ctx) error {
 		if err != nil {
 			return err
 		}
-		defer n.Close()
+		defer func() {
+			if !r.abandon {
+				n.Close()
+			}
+		}()
 		r.n = n
 		kernel.Wait()
 		if hasDuplicates(r.table) {
@@ -1037,11 +1068,13 @@ var Prop = &kernel.Property{
 		"with the DNS cache on, a name resolved upstream earlier may be served without a new exchange",
 		"non-termination is detected by a 2 s wall+CPU budget per query (60 s simulated); the worker process then ends and the driver takes the class from the replay of the running scenario (no shrinking for that class)",
 	},
-	FaultKinds: []string{"upstream_error", "upstream_timeout", "upstream_servfail", "upstream_slow", "live_table_change"},
+	FaultKinds: []string{"upstream_error", "upstream_timeout", "upstream_servfail", "upstream_slow", "live_table_change", "concurrent_table_change"},
 	ProbeNames: []string{oNotMatched, oPassExc, oLocal, oEmpty, oCnameUp, oUnspecified, "matched_query",
 		"cname_beats_address", "exact_shadows_wildcard", "specific_wildcard_wins", "wildcard_cname", "wildcard_address", "self_reference", "family_exception",
 		"wildcard_with_other_family_exception", "cycle", "cycle_through_qname", "cycle_not_through_qname", "chain_2plus", "chain_4plus", "chain_through_wildcard", "local_via_chain", "empty_via_chain", "unspecified_exception_at_later_hop",
 		"unspecified_multi_target", "unspecified_wildcard_mixed_kinds", "unspecified_exc_and_value", "unspecified_cross_family",
 		"fault_on_cname_leg", "upstream_failed_leg", "served_from_cache", "duplicate_entries",
-		"table_add", "table_delete", "table_update", "delete_missing", "update_missing", "delete_removed_duplicates"},
+		"table_add", "table_delete", "table_update", "delete_missing", "update_missing", "delete_removed_duplicates",
+		"sched_steps", "sched_switches", "par_log_yields", "par_table_changed", "par_three_or_more_versions", "par_chain_query",
+		"par_query_discriminates", "par_query_saw_old", "par_query_saw_new", "par_query_saw_intermediate"},
 }
